@@ -46,6 +46,7 @@ type Tty struct {
 	Edges   map[string]int
 	Errors  []string
 	OnWrite func(b []byte) // called under the tty lock, in write order
+	OnDrain func(t *Tty)   // called under the tty lock from inside Drain (fault injection)
 	Raw     []byte
 	KeepRaw bool
 
@@ -144,6 +145,9 @@ func (t *Tty) Drain() error {
 		t.edge(t.state, "Drain", StDraining)
 		t.state = StDraining
 		close(t.drained)
+		if t.OnDrain != nil {
+			t.OnDrain(t)
+		}
 	case StDraining:
 	default:
 		t.errf("Drain while %s", stName[t.state])
@@ -298,4 +302,13 @@ func (t *Tty) Counts() (starts, stops, closes int) {
 	t.mu.Lock()
 	defer t.mu.Unlock()
 	return t.starts, t.stops, t.closes
+}
+
+// ResizeLocked changes the size and fires the resize callback; for use from
+// OnDrain / OnWrite hooks, which already hold the tty lock.
+func (t *Tty) ResizeLocked(w, h int) {
+	t.w, t.h = w, h
+	if t.cb != nil {
+		t.cb()
+	}
 }
